@@ -50,7 +50,8 @@ class SphinxRenderer(DocutilsRenderer):
             inner_node = nodes.inline("", "", classes=classes)
             with self.current_node_context(inner_node):
                 self.render_children(token)
-        elif isinstance(wrap_node, addnodes.download_reference):
+        elif not isinstance(wrap_node, addnodes.pending_xref):
+            # a download, whose text is not filled in later by a resolver
             inner_node = nodes.literal(path_dest, path_dest, classes=classes)
         else:
             inner_node = nodes.inline("", "", classes=classes)
@@ -123,16 +124,26 @@ class SphinxRenderer(DocutilsRenderer):
         if destination.startswith("path:"):
             destination = destination[5:]
         destination = self._handle_relative_docs(destination)
-        if "\x00" in destination:
-            # can never be a file path (and the download collector would raise on it)
+        explicit = (token.info != "auto") and (len(token.children or []) > 0)
+        classes = ["xref", "download", "myst"]
+        try:
+            _, abs_path = self.sphinx_env.relfn2path(destination, self.sphinx_env.docname)
+            is_file = Path(abs_path).is_file()
+        except (ValueError, OSError):
+            # e.g. the destination contains a null byte, or is too long for a file name
+            is_file = False
+        if not is_file:
+            # warn here and only render the text: for a download_reference the download
+            # collector would give a non-myst warning instead (or raise on a null byte)
             self.create_warning(
                 f"Could not find file: {destination!r}",
                 MystWarnings.XREF_MISSING,
                 line=token_line(token, 0),
                 append_to=self.current_node,
             )
-            return self.render_link_url(token)
-        explicit = (token.info != "auto") and (len(token.children or []) > 0)
+            return self._process_wrap_node(
+                nodes.inline(), token, explicit, classes, destination
+            )
         wrap_node = addnodes.download_reference(
             refdomain=None,
             reftarget=destination,
@@ -140,7 +151,6 @@ class SphinxRenderer(DocutilsRenderer):
             reftype="myst",
             refexplicit=explicit,
         )
-        classes = ["xref", "download", "myst"]
         self._process_wrap_node(wrap_node, token, explicit, classes, destination)
 
     def render_link_unknown(self, token: SyntaxTreeNode) -> None:
